@@ -73,6 +73,7 @@ pub fn emit(args: &[String]) {
         };
         accepted += 1;
         pest::set_call_limit(call_limit);
+        let gopt = opt_rules_json(&opt); // the rules the VM executes (C08)
         let vm = pest_vm::Vm::new(opt);
         let mut inputs: Vec<String> = if exhaustive_len > 0 {
             gen::all_inputs(&['a', 'b', ' '], exhaustive_len)
@@ -110,7 +111,7 @@ pub fn emit(args: &[String]) {
                 cs.push(json!({"start": start, "inp": cps(inp), "got": got}));
             }
         }
-        wl(&mut w, &json!({"id": accepted, "text": text, "g": rules_json(&ast), "uni": uni, "extras": EXTRAS,
+        wl(&mut w, &json!({"id": accepted, "text": text, "g": rules_json(&ast), "gopt": gopt, "uni": uni, "extras": EXTRAS,
                            "op": false, "cases": cs}));
     }
     w.flush().unwrap();
